@@ -7,6 +7,7 @@ C03 is the composition of per-layer gradient obligations; each layer is proved a
   individual likelihood   chi.LogLikelihood.evaluateS1                            (contracts/c01.py, recording stubs)
   individual posterior    chi.LogPosterior.evaluateS1                             (this file)
   hierarchical likelihood / posterior   chi.HierarchicalLogLikelihood/LogPosterior.evaluateS1   (contracts/c02.py, real population models)
+  likelihood with fixed parameters      chi.LogLikelihood.fix_parameters + evaluateS1               (contracts/c08.py owners, every mask)
 
 This module re-runs exactly the gradient-related obligations of those contract modules (same code, filtered by obligation
 name) and adds the individual log-posterior.  In every obligation the right-hand side is the derivative of the value
@@ -30,7 +31,7 @@ META = {
     'assumptions': sorted(set(c02.META['assumptions'] + c04.META['assumptions'] + c05.META['assumptions'])),
 }
 
-GRAD = re.compile(r'(sens\.|s1\.|posterior\.s1|usable|layout\.split|constructed-evaluable)')
+GRAD = re.compile(r'(sens\.|s1\.|posterior\.s1|usable|layout\.split|constructed-evaluable|wrap\.collapse\+routing)')
 
 
 def filtered(rec, prefix):
@@ -153,6 +154,9 @@ def tasks():
         out.append(('C01:' + name, (lambda rec, fn=fn: fn(filtered(rec, 'individual-likelihood/')))))
     for name, fn in c02.TASKS:
         out.append(('C02:' + name, (lambda rec, fn=fn: fn(filtered(rec, 'hierarchical/')))))
+    # likelihoods with fixed parameters: the gradient is the free sub-vector of the full gradient (also when every error parameter of an output is fixed)
+    from contracts import c08
+    out.append(('C08:LogLikelihood', (lambda rec: c08.owners(filtered(rec, 'fixed-parameters/'), 'LogLikelihood'))))
     return out
 
 
